@@ -67,6 +67,9 @@ pub struct Spec {
     pub users: BTreeMap<u8, SUser>,
     pub appts: BTreeMap<(u8, u8), SAppt>,
     pub last_event_was_disconnect: bool,
+    /// Verdicts the node gave on submissions since the last connected block (the carrier answers
+    /// repeated submissions of the same transaction from these until the next block).
+    pub receipts: BTreeMap<Txid, &'static str>,
     /// Set when the spec can no longer follow (after a reported violation).
     pub lost: bool,
 }
@@ -95,6 +98,7 @@ impl Spec {
             users: BTreeMap::new(),
             appts: BTreeMap::new(),
             last_event_was_disconnect: false,
+            receipts: BTreeMap::new(),
             lost: false,
         };
         let tip = w.env.lock().tip;
@@ -116,13 +120,14 @@ impl Spec {
         self.tip = tip;
         self.recent = v;
         self.last_event_was_disconnect = false;
+        self.receipts.clear();
         for a in self.appts.values_mut() {
             a.resend_due = false;
         }
     }
 
     pub fn canonical(&self) -> String {
-        let mut s = format!("h={} lost={} led={} ", self.height, self.lost, self.last_event_was_disconnect);
+        let mut s = format!("h={} lost={} led={} rc={:?} ", self.height, self.lost, self.last_event_was_disconnect, self.receipts.iter().map(|(k, v)| (tx_label(k), *v)).collect::<Vec<_>>());
         for (u, i) in &self.users {
             s.push_str(&format!("u{u}:{}/{}/{}/{};", i.start, i.expiry, i.granted, i.forfeited));
         }
@@ -218,6 +223,29 @@ impl Spec {
                 self.on_chain_events(obs, w, &mut out);
             }
             _ => self.on_chain_events(obs, w, &mut out),
+        }
+        // Remember the node's verdicts on submissions (per block interval).
+        for t in obs.trace.iter() {
+            match t {
+                Trace::Connect(..) => self.receipts.clear(),
+                Trace::Rpc(r) if r.method == "sendrawtransaction" => {
+                    if let Some(txid) = r.txid {
+                        let v = match r.verdict.as_str() {
+                            "ok" | "ok:mempool" => "accepted",
+                            "err:-27" => "inchain",
+                            "transport" => continue,
+                            _ => "rejected",
+                        };
+                        self.receipts.insert(txid, v);
+                    }
+                }
+                _ => {}
+            }
+        }
+        // (a Connect clears at its start here, the carrier clears at the end of the block: the sends
+        // made while that block was handled must not survive it)
+        if obs.trace.iter().any(|t| matches!(t, Trace::Connect(..))) {
+            self.receipts.clear();
         }
         // API steps must not move the chain view.
         if matches!(obs.ev, Ev::Register(_) | Ev::Add { .. })
@@ -541,6 +569,16 @@ impl Spec {
         }
         if v.is_none() && self.in_tower_index(w, p) {
             v = Some(Verdict::Accepted);
+        }
+        if v.is_none() && rpcs.iter().any(|r| r.txid.as_ref() == Some(p)) {
+            // asked the mempool, then answered from the verdict the node gave earlier in this block
+            // interval
+            v = match self.receipts.get(p).copied() {
+                Some("accepted") => Some(Verdict::Accepted),
+                Some("inchain") => Some(Verdict::InChain),
+                Some("rejected") => Some(Verdict::Rejected),
+                _ => None,
+            };
         }
         if v.is_none() && w.env.lock().confirmation(p).is_some() {
             // Not asked in this step (e.g. answered from the carrier's per-block receipt cache), but
